@@ -1,7 +1,7 @@
 (* RoundtripFacts.v -- C03: the fixpoint half of the property is a corollary of the re-parse half
    (abstract), and the re-parse half for item lists follows from the string round trip (proved) and
    three named hypotheses about the parts other builders own / nobody models.                     *)
-From CssV Require Import Base Regex Tokenizer Quote Gen.Quote QuoteFacts Roundtrip.
+From CssV Require Import Base Regex Tokenizer Quote Gen.Quote QuoteFacts QuoteStrFacts Roundtrip.
 
 (* ------------------------------------------------------------------ abstract: fixpoint from round trip *)
 Section Abstract.
